@@ -45,6 +45,8 @@ MORE_SEEDS = ['ot-parts-%d' % i for i in (3, 9, 17, 25, 33, 41)] + \
                                                           'mi-0-None', 'mc-7', 'mc-multi-0', 'ac-0-False', 'ac-2-True',
                                                           'value-name-3', 'value-name-4']
 
+LONG_HEX = "'" + '0' * 40 + "'H"          # an all-zero 20-octet key: a legal literal that begins like a bit string
+LONG_OPEN = "'" + '01' * 24            # the same kind of run, never closed
 TOK_ALPHA_Q = ['}', '(', ',', '::=', 'foo', 'Bar', '1', 'END']
 TOK_ALPHA_T = ['{', '}', '(', ')', ',', ';', '|', '::=', '..', 'foo', 'Bar', '1', '-1', '4294967296', '"s"', "'ff'H",
                "'01'B", 'BEGIN', 'END', 'DEFINITIONS', 'IMPORTS', 'FROM', 'OBJECT', 'IDENTIFIER', 'OBJECT-TYPE',
@@ -403,4 +405,46 @@ class Lexical(object):
         return tuple(outs), vs, 2
 
 
-FAMILIES = [Prefixes(), TokenMutations(), Noise(), Lexical()]
+
+class LongLiterals(object):
+    case_timeout = None  # run_parse() owns the interval timer
+    name = 'long-literals'
+    describe = ('a 40-digit all-zero hex literal, a 60-digit hex literal, a 64-digit binary literal and the same digit runs never '
+                'closed, put in place of every number / literal token of the seed texts and appended after the last token: the '
+                'parse terminates within its budget and either succeeds or raises a located package error')
+    FORMS = [LONG_HEX, "'" + 'f0' * 30 + "'h", "'" + '01' * 32 + "'B", LONG_OPEN, "'" + '0' * 40, "'" + '0' * 40 + "'"]
+
+    def blocks(self, tier):
+        return [{'e': s_} for s_ in QUICK_SEEDS + (MORE_SEEDS if tier == 'thorough' else [])]
+
+    def cases(self, block, tier):
+        e = entry(block['e'])
+        tokens = mibspec.file_tokens(e['mods'])
+        spots = [i for i, tok in enumerate(tokens) if not tok.startswith(mibspec.RAW) and (tok.lstrip('-').isdigit() or tok[0] == "'")]
+        for i in spots[:3] + [len(tokens)]:
+            for f in range(len(self.FORMS)):
+                yield {'e': block['e'], 'i': i, 'f': f}
+
+    def run_case(self, case):
+        e = entry(case['e'])
+        tokens = mibspec.file_tokens(e['mods'])
+        i = case['i']
+        if i < len(tokens):
+            if i and tokens[i - 1] in ('MACRO', 'EXPORTS', 'CHOICE'):
+                return ('skip',), [], 0
+            tokens[i] = self.FORMS[case['f']]
+        else:
+            tokens.append(self.FORMS[case['f']])
+        text, offs = layout(tokens, 'B')
+        if case['f'] in self._hung:
+            # this process has already spent a full budget on this very literal: report the same finding, do not pay again
+            return ('bad',), [('C11|long-literal|form-%d|%s' % (case['f'], self._hung[case['f']]),
+                               'text %r (not run: the literal did not terminate in an earlier case of this process)' % text)], 0
+        res = run_parse(text, dialect_of(e, i))
+        if res[0] == 'bad' and res[1].startswith('no-termination'):
+            self._hung[case['f']] = res[1]
+        return (res[0],), basic(res, text, 'C11|long-literal|form-%d' % case['f']), 1
+
+    _hung = {}
+
+FAMILIES = [Prefixes(), TokenMutations(), Noise(), Lexical(), LongLiterals()]
